@@ -117,13 +117,21 @@ def run_plane(sx, line=0):
     return f"plane:{len(found)}"
 
 
-def run_round(sx, end_face):
+def run_round(sx, end_face, merged=False):
     k = sx.real("k", Fraction(1, 10), 10)
     t = sx.vec(sx.real("tx", -20, 20), sx.real("ty", -20, 20), sx.real("tz", -20, 20))
     P = lambda x, y, z: t + sx.vec(x, y, z) * k
     cyl = cb.Cylinder(P(0, 0, 0), P(0, 0, 2), P(1, 0, 0))
     mesh = cb.Mesh()
     mesh.add(cyl)
+    if merged:
+        # the requested end face lies on a face-merged interface: every position there holds a master and a slave vertex,
+        # and "exactly those mesh vertices" means both
+        other = cb.Cylinder.chain(cyl, k * 1.5, start_face=not end_face)
+        (cyl.set_end_patch if end_face else cyl.set_start_patch)("master")
+        other.set_start_patch("slave")          # (a chained shape starts on the face it was chained to)
+        mesh.add(other)
+        mesh.merge_patches("master", "slave")
     mesh.assemble()
     finder = cb.RoundSolidFinder(mesh, cyl)
     core, shell = finder.find_core(end_face), finder.find_shell(end_face)
@@ -146,6 +154,9 @@ def run_round(sx, end_face):
              "C18:round:core", info={"n": len(core)})
     sx.prove(sx.all(conds_shell), "find_shell returns exactly the vertices on the outer rim of the requested end face",
              "C18:round:shell", info={"n": len(shell)})
+    if merged:
+        sx.prove(len(core) == 18 and len(shell) == 16, "on a merged interface the core holds 9 positions x 2 vertices, the rim 8 x 2",
+                 "C18:round:merged-count", info={"core": len(core), "shell": len(shell)})
     return "round"
 
 
@@ -347,7 +358,9 @@ def jobs(tier, seed):
             js.append({"name": f"sphere|line {line}", "fn": "run_sphere", "params": {"line": line}, "max_paths": 3000})
         js.append({"name": f"plane|family {line}", "fn": "run_plane", "params": {"line": line}, "max_paths": 3000})
     js += [{"name": "round|start", "fn": "run_round", "params": {"end_face": False}},
-           {"name": "round|end", "fn": "run_round", "params": {"end_face": True}}]
+           {"name": "round|end", "fn": "run_round", "params": {"end_face": True}},
+           {"name": "round|end|on a merged interface", "fn": "run_round", "params": {"end_face": True, "merged": True}},
+           {"name": "round|start|on a merged interface", "fn": "run_round", "params": {"end_face": False, "merged": True}}]
     others = (5, 10, 17, 22, 29, 40) if tier == "quick" else tuple(range(1, 48))
     for k, o in enumerate(others):
         js.append({"name": f"reorient|identity vs {o}|dirs {k % 3}", "fn": "run_reorient",
